@@ -53,6 +53,24 @@ def trace_lines(events):
     return out
 
 
+def validate_all(traces, owners, rep, feat, max_rejections=4):
+    """validate every trace; a rejected one is reported and the rest re-validated (at most max_rejections times)"""
+    todo = list(range(len(traces)))
+    rej = 0
+    while todo:
+        ok, idx, detail = validate([traces[i] for i in todo], rep)
+        if ok:
+            return
+        bad = todo[idx]
+        rep.fail(dict(feat, kind="trace-rejected", invariant=detail["invariant"], next_event=(detail["next_line"] or {}).get("e")),
+                 {"owner": owners[bad], "detail": detail})
+        rej += 1
+        todo = todo[idx + 1:]
+        if rej >= max_rejections:
+            rep.notes["traces_not_validated_after_rejections"] = len(todo)
+            return
+
+
 def validate(traces, rep, max_cores=14):
     """B: TraceCores over the concatenation of the traces.  -> (ok, index of the first rejected trace or None, detail)"""
     lines = []
